@@ -501,7 +501,9 @@ def r7_timestamp_roundtrip(ctx):
                 for t in walk(t0):
                     if t[0] == 'agg' and t[1] == 'tuple' and len(t[2]) == 2:
                         v = peel(t[2][1])
-                        if v[0] == 'field' and v[2] == 'time' and not any(x[0] in ('cast', 'bin') for x in walk(t[2][1])):
+                        # (the value handed out IS the field projection: a conversion would sit above it; how the node itself is reached —
+                        # through the box, or moved out of it with ptr::read — does not matter)
+                        if v[0] == 'field' and v[2] == 'time' and (len(v) < 4 or str(v[3]).endswith('EventNode')):
                             ok = True
         ctx.check(ok, 'node-time-returned', 'the node\'s stored time is returned with the event, unconverted', scope[0].where())
     # bucket path of CQueue::add hands `time` on unchanged; zero path stores it in the tuple
